@@ -98,8 +98,37 @@ type world struct {
 	nonces      map[string][]byte                              // cur, stale, foreign
 	oracle      func(signer int, nonce []byte) ([]byte, error) // returns the honest holder's certificate (DER)
 	oracleCache map[string][]byte
-	oracleBound bool // the holder's proof covers its certificate key (format of the binding repair)
+	abs         absCtx
 	nowBase     time.Time
+}
+
+// absCtx: facts learnt while running that the abstraction to Coq needs.
+type absCtx struct {
+	// the holder's proof covers its certificate key (format of the binding repair)
+	OracleBound bool `json:"relayed_proof_bound_to_tls_key,omitempty"`
+	// the honest verifier handed out NO nonce for this handshake (empty ServerName /
+	// no AcceptableCAs): signatures "over the current nonce" are over the empty
+	// string and are abstracted as nonce 3, never as this handshake's nonce 0
+	NoNonce bool `json:"verifier_sent_no_nonce,omitempty"`
+	// the honest holder could not be made to hand out its proof (it did not dial /
+	// did not answer / its proof covers neither known format): the peer presents
+	// the certificate WITHOUT the proof it could not get
+	OracleFailed bool `json:"relay_failed,omitempty"`
+}
+
+// errHarness marks failures that no implementation under test can cause.
+type errHarness struct{ msg string }
+
+func (e errHarness) Error() string { return e.msg }
+
+func isHarnessErr(err error) bool { _, ok := err.(errHarness); return ok }
+
+func (w *world) setCur(n []byte) {
+	if len(n) == 0 {
+		w.abs.NoNonce = true
+		n = []byte{}
+	}
+	w.nonces["cur"] = n
 }
 
 func newWorld(sname string) *world {
@@ -252,7 +281,7 @@ func (w *world) signature(s sigSpec, cn nameSpec, tlskey int) ([]byte, error) {
 	}
 	nonce := w.nonces[s.Nonce]
 	if nonce == nil {
-		return nil, fmt.Errorf("no nonce %q", s.Nonce)
+		return nil, errHarness{fmt.Sprintf("no nonce %q", s.Nonce)}
 	}
 	if s.How == "oracle" {
 		// one request per (holder, nonce): the proof can be copied into any number of certificates
@@ -262,13 +291,18 @@ func (w *world) signature(s sigSpec, cn nameSpec, tlskey int) ([]byte, error) {
 		}
 		der, err := w.oracle(s.Signer, nonce)
 		if err != nil {
-			return nil, err
+			if isHarnessErr(err) {
+				return nil, err
+			}
+			w.abs.OracleFailed = true
+			return nil, nil
 		}
 		bound, err := proofFormat(w.suite, w.keys[s.Signer].Public, nonce, der)
 		if err != nil {
-			return nil, err
+			w.abs.OracleFailed = true
+			return nil, nil
 		}
-		w.oracleBound = bound
+		w.abs.OracleBound = bound
 		sig, err := extractSig(der)
 		if err == nil {
 			w.oracleCache[ck] = sig
@@ -401,9 +435,12 @@ func coqName(n nameSpec) string {
 	panic("bad name style")
 }
 
-func nonceNum(s string) int {
+func nonceNum(s string, ctx absCtx) int {
 	switch s {
 	case "cur":
+		if ctx.NoNonce {
+			return 3
+		}
 		return 0
 	case "stale":
 		return 1
@@ -417,7 +454,7 @@ func nonceNum(s string) int {
 // the peer ever carries it)
 const honestTLSKey = 3
 
-func coqSig(s sigSpec, cn nameSpec, tlskey int, oracleBound bool) string {
+func coqSig(s sigSpec, cn nameSpec, tlskey int, ctx absCtx) string {
 	switch s.Kind {
 	case "none":
 		return "None"
@@ -432,10 +469,13 @@ func coqSig(s sigSpec, cn nameSpec, tlskey int, oracleBound bool) string {
 	}
 	tk := "None"
 	if s.How == "oracle" {
+		if ctx.OracleFailed {
+			return "None"
+		}
 		// what an honest holder signs: the nonce it is given and its own new-style name
 		// (and, with the binding repair, its own certificate key)
 		over = nameSpec{Style: "new", Key: s.Signer}
-		if oracleBound {
+		if ctx.OracleBound {
 			tk = fmt.Sprintf("(Some %d)", honestTLSKey)
 		}
 	} else {
@@ -446,10 +486,10 @@ func coqSig(s sigSpec, cn nameSpec, tlskey int, oracleBound bool) string {
 			tk = "(Some 1)"
 		}
 	}
-	return fmt.Sprintf("(Some (SigBy %d %d %s %s))", s.Signer, nonceNum(s.Nonce), coqName(over), tk)
+	return fmt.Sprintf("(Some (SigBy %d %d %s %s))", s.Signer, nonceNum(s.Nonce, ctx), coqName(over), tk)
 }
 
-func coqCert(c *certSpec, oracleBound bool) string {
+func coqCert(c *certSpec, ctx absCtx) string {
 	var us []string
 	for _, u := range c.URIs {
 		us = append(us, fmt.Sprintf("URI %s %s %s", lib.Bool(u.Scheme == "onet-pubkey"), lib.Bool(u.Svc == ""), coqName(u.Name)))
@@ -464,11 +504,11 @@ func coqCert(c *certSpec, oracleBound bool) string {
 		signer = "SgCA"
 	}
 	eku := c.EKU == "both" || c.EKU == "server" || c.EKU == "any" || c.EKU == "none"
-	return fmt.Sprintf("(mkcert %s %s %s %d %s (%d)%%Z (%d)%%Z %s %s)", coqName(c.CN), lib.List(us), coqSig(c.Sig, c.CN, c.TLSKey, oracleBound),
+	return fmt.Sprintf("(mkcert %s %s %s %d %s (%d)%%Z (%d)%%Z %s %s)", coqName(c.CN), lib.List(us), coqSig(c.Sig, c.CN, c.TLSKey, ctx),
 		c.TLSKey, signer, c.NotBefore, c.NotAfter, lib.Bool(eku), lib.Bool(c.Crit))
 }
 
-func coqChain(raws []rawSpec, oracleBound bool) string {
+func coqChain(raws []rawSpec, ctx absCtx) string {
 	var rs []string
 	for _, r := range raws {
 		switch r.Kind {
@@ -477,7 +517,7 @@ func coqChain(raws []rawSpec, oracleBound bool) string {
 		case "two":
 			rs = append(rs, "RawMany")
 		default:
-			rs = append(rs, "RawOne "+coqCert(r.Cert, oracleBound))
+			rs = append(rs, "RawOne "+coqCert(r.Cert, ctx))
 		}
 	}
 	return lib.List(rs)
